@@ -21,7 +21,8 @@ namespace sqf
             using data_type = sqf::runtime::t_scalar;
         private:
             float m_value;
-            inline static int s_decimals = -1;
+            // Formatting mode of the runtime that currently executes on this thread (installed by the runtime, see execute_do)
+            inline static thread_local int s_decimals = -1;
         protected:
             bool do_equals(std::shared_ptr<data> other, bool invariant) const override
             {
